@@ -5,6 +5,8 @@ pub mod enumerate;
 #[cfg(feature = "pbt")]
 pub mod fuzzrun;
 #[cfg(feature = "pbt")]
+pub mod mirirun;
+#[cfg(feature = "pbt")]
 pub mod random;
 
 use crate::common::*;
